@@ -90,6 +90,10 @@ class Ctx(object):
         self.known_hits = {}  # finding id -> count
         self.known = [k for k in load_known() if k['property'] == pid]
         self.replay_dir = os.path.join(EVID, 'replays', pid)
+        if os.path.isdir(self.replay_dir):      # replays of an earlier run are stale
+            for f in os.listdir(self.replay_dir):
+                if f.startswith('v') and f.endswith('.json'):
+                    os.unlink(os.path.join(self.replay_dir, f))
         self.samples = []
 
     def note(self, key, n=1):
